@@ -57,14 +57,44 @@ Proof.
   intros Hpos. unfold tail_from. rewrite skipn_add. f_equal. lia.
 Qed.
 
+(** * the forward reader returns exactly the file's bytes *)
+Definition rdr_view (r : rdr) : list N := rd_bytes r ++ repeat 0 (N.to_nat (rd_zeros r)).
+
+Lemma rdr_open_view f pos :
+  file_ok f -> DATA0 <= pos -> rdr_view (rdr_open f pos) = tail_from f pos.
+Proof.
+  intros Hok Hpos. unfold rdr_open, rdr_view, tail_from, data_full.
+  set (D := f_data f). set (p := N.to_nat (pos - DATA0)). set (M := N.to_nat (f_len f - DATA0)).
+  assert (HDM : (length D <= M)%nat) by (unfold file_ok, nlen in Hok; subst D M; lia).
+  destruct (pos - DATA0 <? N.of_nat (length D)) eqn:E; cbn [rd_bytes rd_zeros].
+  - rewrite skipn_app. replace (p - length D)%nat with 0%nat by (subst p; lia). cbn [skipn].
+    f_equal. f_equal. subst M. lia.
+  - rewrite skipn_app, skipn_all2 by (subst p; lia). cbn [app].
+    rewrite skipn_repeat. f_equal. subst M p. lia.
+Qed.
+
+Lemma rdr_read_spec r n :
+  fst (rdr_read r n) = firstn n (rdr_view r) /\ rdr_view (snd (rdr_read r n)) = skipn n (rdr_view r).
+Proof.
+  unfold rdr_read, rdr_view. set (B := rd_bytes r). set (Z := rd_zeros r).
+  pose proof (firstn_length n B) as Hl.
+  destruct (length (firstn n B) =? n)%nat eqn:E; cbn [fst snd rd_bytes rd_zeros].
+  - assert (n <= length B)%nat by lia.
+    rewrite firstn_app, skipn_app. replace (n - length B)%nat with 0%nat by lia.
+    cbn [firstn skipn]. rewrite app_nil_r. split; reflexivity.
+  - assert (Hlt : (length B < n)%nat) by lia.
+    rewrite firstn_all2 by lia. rewrite firstn_app, skipn_app, (firstn_all2 B), (skipn_all2 B) by lia.
+    rewrite firstn_repeat, skipn_repeat. cbn [app]. split; f_equal; f_equal; lia.
+Qed.
+
 (** * successive 1024-byte reads *)
-Fixpoint file_chunks (fuel : nat) (f : lfile) (pos : N) : list (list N) :=
+Fixpoint file_chunks (fuel : nat) (rd : rdr) : list (list N) :=
   match fuel with
   | O => []
   | S fu =>
-      match data_read f pos 1024 with
-      | [] => []
-      | ch => ch :: file_chunks fu f (pos + N.of_nat (length ch))
+      match rdr_read rd 1024 with
+      | ([], _) => []
+      | (ch, rd') => ch :: file_chunks fu rd'
       end
   end.
 
@@ -75,14 +105,14 @@ Proof.
   - rewrite Nat.min_r by lia. rewrite firstn_all2 by lia. rewrite skipn_all. apply app_nil_r.
 Qed.
 
-Lemma scan_file_chunks : forall fuel f pos r c count cur base x y,
-  scan_chunks mbr_at_end_marker (file_chunks fuel f pos) r c count cur = Ok (true, (x, y)) ->
-  scan_file fuel f pos r c count cur base = Ok (x, base + y).
+Lemma scan_file_chunks : forall fuel rd r c count cur base x y,
+  scan_chunks mbr_at_end_marker (file_chunks fuel rd) r c count cur = Ok (true, (x, y)) ->
+  scan_file fuel rd r c count cur base = Ok (x, base + y).
 Proof.
-  induction fuel as [|fu IH]; intros f pos r c count cur base x y H.
+  induction fuel as [|fu IH]; intros rd r c count cur base x y H.
   - cbn [file_chunks scan_chunks] in H. discriminate.
   - cbn [file_chunks scan_file] in *.
-    destruct (data_read f pos 1024) as [|b ch'] eqn:Ech.
+    destruct (rdr_read rd 1024) as [[|b ch'] rd'] eqn:Ech.
     + cbn [scan_chunks] in H. discriminate.
     + cbn [scan_chunks] in H.
       destruct (mbr_append r (b :: ch')) as [r1| |] eqn:Ea; cbn [res_bind] in *; try discriminate.
@@ -95,27 +125,25 @@ Proof.
         -- apply IH. exact H.
 Qed.
 
-Lemma file_chunks_cover : forall fuel f pos,
-  file_ok f -> DATA0 <= pos ->
-  (length (tail_from f pos) <= 1024 * fuel)%nat ->
-  concat (file_chunks fuel f pos) = tail_from f pos /\
-  Forall (fun ch => ch <> []) (file_chunks fuel f pos).
+Lemma file_chunks_cover : forall fuel rd,
+  (length (rdr_view rd) <= 1024 * fuel)%nat ->
+  concat (file_chunks fuel rd) = rdr_view rd /\
+  Forall (fun ch => ch <> []) (file_chunks fuel rd).
 Proof.
-  induction fuel as [|fu IH]; intros f pos Hok Hpos Hlen.
-  - cbn [file_chunks concat]. destruct (tail_from f pos); [split; [reflexivity|constructor]|cbn [length] in Hlen; lia].
-  - cbn [file_chunks]. rewrite (data_read_spec f pos 1024 Hok Hpos).
-    destruct (firstn 1024 (tail_from f pos)) as [|b ch'] eqn:Ech.
-    + destruct (tail_from f pos) as [|t ts] eqn:Et; [split; [reflexivity|constructor]|].
-      cbn [firstn] in Ech. discriminate.
-    + rewrite <- Ech.
-      assert (Hl : length (firstn 1024 (tail_from f pos)) = Nat.min 1024 (length (tail_from f pos)))
-        by apply firstn_length.
-      destruct (IH f (pos + N.of_nat (length (firstn 1024 (tail_from f pos)))) Hok) as [Hc Hne].
-      * lia.
-      * rewrite tail_from_advance by exact Hpos. rewrite skipn_length. lia.
-      * cbn [concat]. rewrite Hc, tail_from_advance by exact Hpos. split.
-        -- apply firstn_skipn_len.
-        -- constructor; [rewrite Ech; discriminate|exact Hne].
+  induction fuel as [|fu IH]; intros rd Hlen.
+  - cbn [file_chunks concat]. destruct (rdr_view rd); [split; [reflexivity|constructor]|cbn [length] in Hlen; lia].
+  - cbn [file_chunks]. destruct (rdr_read_spec rd 1024) as [H1 H2].
+    destruct (rdr_read rd 1024) as [ch rd'] eqn:Ech. cbn [fst snd] in H1, H2.
+    destruct ch as [|b ch'].
+    + destruct (rdr_view rd) as [|t ts] eqn:Et; [split; [reflexivity|constructor]|].
+      cbn [firstn] in H1. discriminate.
+    + assert (Hl : length (b :: ch') = Nat.min 1024 (length (rdr_view rd))).
+      { rewrite H1. apply firstn_length. }
+      destruct (IH rd') as [Hc Hne].
+      * rewrite H2, skipn_length. cbn [length] in Hl. lia.
+      * cbn [concat]. rewrite Hc, H2. split.
+        -- rewrite H1. apply firstn_skipn.
+        -- constructor; [discriminate|exact Hne].
 Qed.
 
 Lemma scan_fuel_enough f pos :
@@ -164,7 +192,7 @@ Proof. apply Forall_forall. intros x Hx. apply repeat_spec in Hx. subst. unfold 
 (** scan to the end of the log from the boundary behind [pre] *)
 Theorem scan_file_to_end c pre post count base :
   wfc c -> c_all c = pre ++ post -> nlen post < count ->
-  scan_file (scan_fuel (c_file c) (DATA0 + frl pre)) (c_file c) (DATA0 + frl pre) mbr_new 0 count
+  scan_file (scan_fuel (c_file c) (DATA0 + frl pre)) (rdr_open (c_file c) (DATA0 + frl pre)) mbr_new 0 count
             (DATA0 + frl pre) base
   = Ok (c_dcur c, base + nlen post).
 Proof.
@@ -172,7 +200,8 @@ Proof.
   destruct (tail_from_conc c pre post W Hall) as [z Hz].
   pose proof (c_file_ok c W) as Hfok.
   assert (Hpos : DATA0 <= DATA0 + frl pre) by lia.
-  destruct (file_chunks_cover _ _ _ Hfok Hpos (scan_fuel_enough _ _ Hfok Hpos)) as [Hc Hne].
+  pose proof (scan_fuel_enough _ _ Hfok Hpos) as Hfu. rewrite <- (rdr_open_view _ _ Hfok Hpos) in Hfu, Hz.
+  destruct (file_chunks_cover _ _ Hfu) as [Hc Hne].
   assert (Hrs : Forall rec_ok post /\ Forall rec_nonempty post).
   { pose proof (wf_ok c W) as H1. pose proof (wf_nonempty c W) as H2. rewrite Hall in *.
     apply Forall_app in H1. apply Forall_app in H2. tauto. }
@@ -187,7 +216,7 @@ Proof.
   assert (Hb : blen (map rec_body post) < count).
   { unfold blen. rewrite map_length. exact Hcount. }
   specialize (Hs Hb).
-  rewrite (scan_file_chunks _ _ _ _ _ _ _ base _ _ Hs). f_equal. f_equal.
+  rewrite (scan_file_chunks _ _ _ _ _ _ base _ _ Hs). f_equal. f_equal.
   - unfold c_dcur. rewrite Hall, frl_app. unfold frl, nlen, blen. lia.
   - unfold blen, nlen. rewrite map_length. reflexivity.
 Qed.
@@ -195,7 +224,7 @@ Qed.
 (** scan exactly [count] records forward from the boundary behind [pre] *)
 Theorem scan_file_to_count c pre post count base :
   wfc c -> c_all c = pre ++ post -> 0 < count <= nlen post ->
-  scan_file (scan_fuel (c_file c) (DATA0 + frl pre)) (c_file c) (DATA0 + frl pre) mbr_new 0 count
+  scan_file (scan_fuel (c_file c) (DATA0 + frl pre)) (rdr_open (c_file c) (DATA0 + frl pre)) mbr_new 0 count
             (DATA0 + frl pre) base
   = Ok (DATA0 + frl pre + frl (firstn (N.to_nat count) post), base + count).
 Proof.
@@ -203,13 +232,14 @@ Proof.
   destruct (tail_from_conc c pre post W Hall) as [z Hz].
   pose proof (c_file_ok c W) as Hfok.
   assert (Hpos : DATA0 <= DATA0 + frl pre) by lia.
-  destruct (file_chunks_cover _ _ _ Hfok Hpos (scan_fuel_enough _ _ Hfok Hpos)) as [Hc Hne].
+  pose proof (scan_fuel_enough _ _ Hfok Hpos) as Hfu. rewrite <- (rdr_open_view _ _ Hfok Hpos) in Hfu, Hz.
+  destruct (file_chunks_cover _ _ Hfu) as [Hc Hne].
   assert (Hrs : Forall rec_ok post /\ Forall rec_nonempty post).
   { pose proof (wf_ok c W) as H1. pose proof (wf_nonempty c W) as H2. rewrite Hall in *.
     apply Forall_app in H1. apply Forall_app in H2. tauto. }
   destruct Hrs as [Hok Hne'].
   pose proof (scan_chunks_to_count (map rec_body post) (0 :: repeat 0 z)
-                (file_chunks (scan_fuel (c_file c) (DATA0 + frl pre)) (c_file c) (DATA0 + frl pre))
+                (file_chunks (scan_fuel (c_file c) (DATA0 + frl pre)) (rdr_open (c_file c) (DATA0 + frl pre)))
                 [] count (DATA0 + frl pre) (rec_bodies_ok _ Hok Hne')) as Hs.
   assert (Hab : all_bytes (0 :: repeat 0 z)).
   { constructor; [unfold is_byte; lia|apply all_bytes_repeat0]. }
@@ -224,5 +254,5 @@ Proof.
   { rewrite app_length. rewrite <- (firstn_skipn (N.to_nat count) post) at 2.
     rewrite fr_app, app_length. lia. }
   specialize (Hs Hl).
-  rewrite (scan_file_chunks _ _ _ _ _ _ _ base _ _ Hs). f_equal.
+  rewrite (scan_file_chunks _ _ _ _ _ _ base _ _ Hs). f_equal.
 Qed.
